@@ -582,7 +582,7 @@ RULES = [
     Rule('C06.K11', 'Blob::from_file scans whenever the file exceeds the blob header (no slack in the guard)', k11, 1),
     Rule('C06.K12', 'a short (empty / cut) index file left by an interrupted dump is regenerated at the next start (C03.I10 instance)', k12, 1),
     Rule('C06.K13', 'the data-validation flag handed to the recovery scan is the configured flag and nothing else (C05.V8 instances)', k13, 2),
-    Rule('C06.K14', 'every index dump is preceded by an ok sync of the blob file (C12.S2 instances)', k14, 3),
+    Rule('C06.K14', 'every index dump is preceded by an ok sync of the blob file (C12.S2 instances)', k14, 2),
     Rule('C06.K15', 'every validation error kind the scan can raise is classified as corruption by should_save_corrupted_blob', k15, 4),
     Rule('C06.K8', 'the id of every blob that failed to open (ignored or quarantined) is never reused (C07.H6/H6d instances)', k8, 4),
     Rule('C06.K7', 'a torn or stale index file is never trusted: gate tests every header fact (blob size by equality), the file extent, and the written flag is set in a second phase (C03.I2/I5/I8 instances)', k7, 8),
